@@ -342,7 +342,7 @@ func (s *CatSc) checkIn(ro runOut, st *core.Stats, add func(clause, key, format 
 			return
 		}
 		if lj := listeners[j]; s.filteredFor(k, lj != nil && lj.flip) {
-			add("listen-options", "filtered-class-delivered", "listener #%d received % X although its class is switched off (scenario options active_sense=%v timing_clock=%v sysex=%v, this listener asked for the opposite: %v)", j, core.Trunc(fmt.Sprintf("% X", []byte(e.s)), 60), s.ActiveSense, s.TimeCode, s.SysEx, lj != nil && lj.flip)
+			add("listen-options", "filtered-class-delivered", "listener #%d received %s although its class is switched off (scenario options active_sense=%v timing_clock=%v sysex=%v, this listener asked for the opposite: %v)", j, core.Trunc(fmt.Sprintf("% X", []byte(e.s)), 60), s.ActiveSense, s.TimeCode, s.SysEx, lj != nil && lj.flip)
 			return
 		}
 		if s.Mix && len(e.s) > 0 && (e.s[0] == 0xFE || e.s[0] == 0xF8 || e.s[0] == 0xF0) {
